@@ -47,7 +47,7 @@ def main():
     meta["needs_to_manifest"] = notes[:3000]
     confirmed = True
     if os.path.isdir(wt):
-        sh("git checkout -- . && git clean -fdq -e target", cwd=wt)
+        sh("git checkout -- . && git clean -fdq -e target -e tests", cwd=wt)
         rc, o = sh(["git", "apply", patch], cwd=wt)
         meta["ran"].append({"cmd": "git apply patch.diff (scratch worktree)", "rc": rc})
         if rc != 0:
@@ -63,7 +63,7 @@ def main():
         demo = os.path.join(out, "demo.sh")
         if os.path.exists(demo):
             rc1, o1 = sh(["bash", demo], cwd=out, env={"CARGO_TARGET_DIR": os.path.join(wt, "target")})
-            sh("git checkout -- . && git clean -fdq -e target", cwd=wt)
+            sh("git checkout -- . && git clean -fdq -e target -e tests", cwd=wt)
             rc0, o0 = sh(["bash", demo], cwd=out, env={"CARGO_TARGET_DIR": os.path.join(wt, "target")})
             meta["ran"].append({"cmd": "demo.sh with change", "rc": rc1})
             meta["ran"].append({"cmd": "demo.sh without change", "rc": rc0})
@@ -74,7 +74,7 @@ def main():
         else:
             print("no demo.sh")
             confirmed = False
-        sh("git checkout -- . && git clean -fdq -e target", cwd=wt)
+        sh("git checkout -- . && git clean -fdq -e target -e tests", cwd=wt)
     else:
         print("worktree gone; skipping demonstration re-run")
     meta["confirmed_breaks_and_suite_passes"] = confirmed
